@@ -22,7 +22,13 @@ CHUNK = 20
 def corpus():
     p = os.path.join(C.VERIF, 'corpus', 'c10_scenes.json')
     if os.path.exists(p):
-        return json.load(open(p))
+        out = json.load(open(p))
+        for sc in out:
+            sc['cps'] = {int(k): [tuple(q) for q in v] for k, v in sc['cps'].items()}
+            sc['boxes'] = [tuple(b) for b in sc['boxes']]
+            sc['pins'] = [tuple(b) for b in sc['pins']]
+            sc['conns'] = [(c[0], tuple(c[1]), tuple(c[2])) for c in sc['conns']]
+        return out
     return []
 
 
@@ -101,7 +107,7 @@ def classify_region(d):
     if not m:
         return None
     cons, flagged, gaps, vs, wr = [set(x.split(',')) - {''} for x in m.groups()]
-    if cons and cons <= flagged and not gaps and not vs and not wr:
+    if cons and cons <= flagged and not gaps and not vs:
         return 'unsat_flag_ignored'
     return None
 
